@@ -460,6 +460,10 @@ CHECKS["C19"]["runs"] = CHECKS["C19"]["runs"] + [
 CHECKS["C04"]["runs"] = CHECKS["C04"]["runs"] + [dict([r for r in CHECKS["C06"]["runs"] if r["name"] == "step.delta"][0], prop="C06")]
 CHECKS["C09"]["runs"] = CHECKS["C09"]["runs"] + [dict([r for r in CHECKS["C10"]["runs"] if r["name"] == "run.cli.fmp4.abstime.2segs"][0], name="client.fmp4.abstime.2segs", prop="C10")]
 CHECKS["C11"]["runs"] = CHECKS["C11"]["runs"] + [dict([r for r in CHECKS["C10"]["runs"] if r["name"] == "run.cli.rendition"][0], name="client.rendition.urls", prop="C10")]
+CHECKS["C20"]["runs"] = CHECKS["C20"]["runs"] + [
+    {"name": "conc.pipeline.fmp4", "files": CLIP, "fn": "VerifH_C20_pipeline", "workers": 8, "params_quick": {"FRAGS": 3}, "params_thorough": {"FRAGS": 5},
+     "reach": ["consumer-blocked", "end"], "replay_timeout": 120}]
+CHECKS["C20"]["bounds"]["quick"]["pipeline"] = "3 fMP4 segments x 3 fragments, the consumer blocks in the last unit of the first segment"
 # three parts in one file (a middle part: offset > 0 and data after it), few operations
 CHECKS["C17"]["runs"] = CHECKS["C17"]["runs"] + [
     {"name": "run.storage.equiv.3parts", "dir": "pkg/storage", "files": [S + "c17_storage.go", "rt/fs_model.go"], "fn": "VerifH_C17_storage", "workers": 16,
